@@ -41,6 +41,7 @@ def all_shapes(dmax):
     return out
 
 
+ZERO_SHAPES = [(0,), (2, 0), (0, 3), (2, 0, 3), (3, 0, 0)]  # parameters without elements are legal (empty layers)
 INV_SHAPES = [[5, 3], [4, 4], [2, 3, 4], [7], [2, 1, 3]]
 
 
@@ -70,7 +71,7 @@ def inv_cfgs(tier, seed):
 
 def work(tier, seed):
     dmax = 4 if tier == "quick" else 5
-    shapes = all_shapes(dmax)
+    shapes = all_shapes(dmax) + ZERO_SHAPES
     units = [{"part": "tile", "shapes": ch} for ch in common.chunks(shapes, max(4, len(shapes) // 48))]
     depth = 2 if tier == "quick" else 3
     for ch in common.chunks(inv_cfgs(tier, seed), 4):
@@ -96,6 +97,11 @@ def make_distributor(torch, shape, max_dim, merge, frozen=False, layout="plain")
         p = torch.nn.Parameter(buf[PAD : PAD + n].view(shape), requires_grad=not frozen)
         assert p.storage_offset() == PAD and p.untyped_storage().data_ptr() == buf.untyped_storage().data_ptr()
         p._verif_buf = buf
+    elif layout == "tparam":
+        # same logical content, but the parameter's memory layout is not row-major (transposed / tied weight, channels_last)
+        perm = list(range(len(shape)))[::-1]
+        p = torch.nn.Parameter(torch.arange(n, dtype=torch.float32).reshape(shape).permute(perm).contiguous().permute(perm), requires_grad=not frozen)
+        assert not p.is_contiguous()
     else:
         p = torch.nn.Parameter(torch.arange(n, dtype=torch.float32).reshape(shape), requires_grad=not frozen)
     group = {PARAMS: [p], MAX_PRECONDITIONER_DIM: max_dim, USE_MERGE_DIMS: merge}
@@ -108,7 +114,12 @@ def make_distributor(torch, shape, max_dim, merge, frozen=False, layout="plain")
 def check_tiling(torch, shape, max_dim, merge, frozen=False, layout="plain"):
     msgs = []
     n = prod(shape) if shape else 1
-    p, d = make_distributor(torch, shape, max_dim, merge, frozen, layout)
+    try:
+        p, d = make_distributor(torch, shape, max_dim, merge, frozen, layout)
+    except RuntimeError as e:
+        if layout == "tparam" and "view size is not compatible" in str(e):
+            return [], 0, ("tparam-rejected",)  # merging needs a view the layout does not admit: rejected, not mis-blocked
+        raise
     blocks = d.local_blocked_params
     mshape, ref = ref_blocks(shape, max_dim, merge)
     # reference-free invariants
@@ -266,7 +277,12 @@ def run_unit(unit):
                             m2, _, _ = check_tiling(torch, shape, max_dim, merge, layout="offset")
                             msgs = [f"(parameter and gradient are views into flat buffers at a non-zero storage offset) {m}" for m in m2]
                             res["stats"]["offset_layout_cases"] = res["stats"].get("offset_layout_cases", 0) + 1
-                        if not msgs and max_dim in (2, 3, 1024) and len(shape) >= 2 and sum(1 for x in shape if x > 1) >= 2:
+                        if not msgs and max_dim in (2, 3, 1024) and len(shape) >= 2 and sum(1 for x in shape if x > 1) >= 2 and prod(shape) > 0:
+                            m2, _, sg = check_tiling(torch, shape, max_dim, merge, layout="tparam")
+                            msgs = [f"(parameter whose memory layout is not row-major) {m}" for m in m2]
+                            res["stats"]["tparam_cases"] = res["stats"].get("tparam_cases", 0) + 1
+                            res["stats"]["tparam_rejected_by_view"] = res["stats"].get("tparam_rejected_by_view", 0) + int(sg == ("tparam-rejected",))
+                        if not msgs and max_dim in (2, 3, 1024) and len(shape) >= 2 and sum(1 for x in shape if x > 1) >= 2 and prod(shape) > 0:
                             m2, _, sg = check_tiling(torch, shape, max_dim, merge, layout="tgrad")
                             msgs = [f"(gradient with another memory layout than the parameter) {m}" for m in m2]
                             res["stats"]["tgrad_cases"] = res["stats"].get("tgrad_cases", 0) + 1
@@ -323,8 +339,8 @@ def replay(case):
         try:
             args = (torch, tuple(case["shape"]), case["max_dim"], case["merge"])
             a = check_tiling(*args)[0] or check_tiling(*args, frozen=True)[0] or check_tiling(*args, layout="offset")[0]
-            if not a and len(case["shape"]) >= 2:
-                a = check_tiling(*args, layout="tgrad")[0]
+            if not a and len(case["shape"]) >= 2 and sum(1 for x in case["shape"] if x > 1) >= 2 and prod(case["shape"]) > 0:
+                a = check_tiling(*args, layout="tparam")[0] or check_tiling(*args, layout="tgrad")[0]
             return a
         except Exception as e:
             return [f"raised {type(e).__name__}: {e}"]
